@@ -10,6 +10,4 @@ cd "$(dirname "$0")/.."
 for c in "$@"; do
   VERIF_REPO=$WT ./check $c 2>/dev/null | grep -E "VIOLATION|KNOWN|ok|FAIL" | tail -3
 done
-git -C /repo worktree remove --force $WT
-# restore the harness build for /repo itself
-ln -sfn /repo harness/norad-src
+git -C /repo worktree remove --force $WT; rm -rf "$(dirname "$0")/../harness-alt"
